@@ -17,7 +17,9 @@ RULE = ("full in-memory stack: real Router + 1..3 generated drivers (1-3 groups,
         "vector/group, selected_value) and client-side (handshake, assign+submit) operations with partial-delivery steps so that "
         "messages are in flight while the next operation happens; in every third session the BLOB connection's server->client direction "
         "delivers nothing for 3..60 scheduling rounds while the handshake is in flight and the drivers already change state, and is "
-        "released only after the control connection went quiet (stale copies arrive last). At every quiescent checkpoint (a) the library client's public "
+        "released only after the control connection went quiet (stale copies arrive last); in every third session a further client is "
+        "attached through the real TTY ConnectionHandler, whose stdout suspends inside write() and flush(), and is mirrored by a "
+        "reference client reading what was written. At every quiescent checkpoint (a) the library client's public "
         "view and (b) a reference client fed with the very bytes of the control connection are compared with the expectation "
         "derived from the generated definition, the tracked enable flags/states and the drivers' public values. "
         "non-trivial = >=1 driver-side and >=1 client-side operation and >= 2 properties in the final mirror; "
@@ -25,7 +27,7 @@ RULE = ("full in-memory stack: real Router + 1..3 generated drivers (1-3 groups,
 ASSUMPTIONS = ["BLOB payloads are compared by C08; Element.enabled toggles at run time are not in the quantifier",
                "numbers are compared numerically within the format's resolution",
                "a device without enabled properties may or may not be listed"]
-REQUIRED_EVENTS = ["sessions", "sessions_with_lagging_blob_link", "driver_ops_during_handshake", "checkpoints", "library_client_properties_compared", "reference_mirror_messages",
+REQUIRED_EVENTS = ["sessions", "sessions_with_a_tty_client", "tty_client_properties_compared", "sessions_with_lagging_blob_link", "driver_ops_during_handshake", "checkpoints", "library_client_properties_compared", "reference_mirror_messages",
                    "snooping_client_checkpoints", "ops_with_bytes_in_flight", "depth3_sessions"]
 
 QUICK_SHARDS = 4
@@ -61,10 +63,77 @@ def client_value(rng, kind, e):
     raise AssertionError(kind)
 
 
+class TtyPeer:
+    """A client on the TTY channel: real server-side TTY ConnectionHandler, stdin fed by the harness, stdout whose write() and
+    flush() suspend for 0..3 loop iterations; what was written is read by an independent reference client."""
+
+    def __init__(self, router, rng):
+        from indi.transport.server.tty import ConnectionHandler
+        from vf.transportx import FakeStdin
+        self.rng = rng
+        self.stdin = FakeStdin()
+        self.chunks = []
+        self.busy = 0
+        peer = self
+
+        class Stdout:
+            async def write(self, data):
+                peer.busy += 1
+                try:
+                    for _ in range(peer.rng.choice([0, 1, 1, 2, 3])):
+                        await asyncio.sleep(0)
+                    peer.chunks.append(data)
+                finally:
+                    peer.busy -= 1
+
+            async def flush(self):
+                peer.busy += 1
+                try:
+                    for _ in range(peer.rng.choice([0, 1, 2])):
+                        await asyncio.sleep(0)
+                finally:
+                    peer.busy -= 1
+
+        self.handler = ConnectionHandler(router, self.stdin, Stdout())
+        self.task = asyncio.get_running_loop().create_task(self.handler.handle())
+
+    async def drain(self, sess):
+        quiet = 0
+        for _ in range(200000):
+            pend = [t for t, nm in zip(sess.mon.tasks, sess.mon.names()) if not t.done() and "_write" in nm]
+            if not pend and not self.busy:
+                quiet += 1
+                if quiet >= 3:
+                    return True
+            else:
+                quiet = 0
+            await asyncio.sleep(0)
+        return False
+
+    def view(self):
+        from vf.ref import xmlsplit
+        from vf.ref.client import RefClient
+        from vf.ref.view import view_xml
+        try:
+            els, rest = xmlsplit.split("".join(self.chunks))
+        except xmlsplit.SplitError as e:
+            return None, f"TTY output is not a sequence of XML elements: {e}"
+        if rest.strip():
+            return None, f"TTY output ends inside an element: {rest[-80:]!r}"
+        ref = RefClient()
+        for e in els:
+            ref.apply(view_xml(e))
+        return ref.view(), None
+
+
 async def checkpoint(ctx, case, sess, client, drivers, specs, tracks, mirror, snooper, step, tap):
     r = await sess.quiesce()
     if r < 0:
         ctx.violate("stall:loop-does-not-quiesce", "event loop did not become quiescent", case, {"step": step})
+        return False
+    tty = getattr(sess, "tty", None)
+    if tty is not None and not await tty.drain(sess):
+        ctx.violate("stall:tty-writes-do-not-finish", "the TTY connection's writes did not finish", case, {"step": step})
         return False
     ctx.count("checkpoints")
     tap.report_invalid(ctx, dict(case, step=step))
@@ -109,6 +178,17 @@ async def checkpoint(ctx, case, sess, client, drivers, specs, tracks, mirror, sn
                         key = "library-client:raced-across-control-and-blob-connection"
                 ctx.violate(key, f"step {step}: {diffs[0][1]} (+{len(diffs) - 1} more)", case, {"step": step, "diffs": diffs[:6]})
                 return False
+        if tty is not None:
+            tview, terr = tty.view()
+            if terr:
+                ctx.violate("tty-output-unreadable", terr, case, {"step": step})
+                return False
+            tv = {n: (dict(x, state=None) if x["kind"] == "BLOB" else x) for n, x in tview.get(spec["name"], {}).items()}
+            ctx.count("tty_client_properties_compared", len(expected))
+            diffs = fullstack.compare_mirror(tv, expected, who="tty-client")
+            if diffs:
+                ctx.violate(f"tty-client:{diffs[0][0]}", f"step {step}: {diffs[0][1]} (+{len(diffs) - 1} more)", case, {"step": step, "diffs": diffs[:6]})
+                return False
         md = fullstack.compare_metadata(ref.devices.get(spec["name"], {}), expected)
         if md:
             ctx.violate(f"wire-metadata:{md[0][0]}", f"step {step}: {md[0][1]}", case, {"step": step, "diffs": md[:6]})
@@ -144,6 +224,14 @@ async def session(ctx, case):
                 return False, 0, 0
         tracks = [DV.Track(s) for s in specs]
         sess = stack.Session(router, seed=case["i"], mode_c2s=case["mode_c2s"], mode_s2c=case["mode_s2c"])
+        tty = None
+        if case["i"] % 3 == 2:
+            # a second connected client on the TTY channel (the driver started by an indiserver): its stdout really suspends in
+            # write() and flush(), as the aiofiles wrappers do, so that updates are published while an earlier one is being written
+            tty = TtyPeer(router, ctx.rng("tty", case["i"]))
+            tty.stdin.feed('<getProperties version="1.7"/>\n')
+            ctx.count("sessions_with_a_tty_client")
+        sess.tty = tty
         client = await sess.make_client()
         mirror = fullstack.MultiMirror([client._vf_links[0].s2c, client._vf_links[1].s2c])
         snooper = None
